@@ -74,7 +74,7 @@ func init() {
 		addr := g.havoc(a.nm("rf_addr"), "Iface")
 		err := g.havoc(a.nm("rf_err"), "Iface")
 		g.assumeIf(reach, fmt.Sprintf("(and (<= 0 %s) (<= %s (sllen %s)))", n, n, p))
-		g.assumeIf(reach, heapValWF(types.NewInterfaceType(nil, nil), addr, st))
+		g.assumeIf(reach, g.heapValWF(types.NewInterfaceType(nil, nil), addr, st))
 		newArr := g.havoc(a.nm("rf_buf"), "(Array Int Int)")
 		g.assumeIf(reach, fmt.Sprintf("(forall ((i Int)) (! (and (<= 0 (select %s i)) (<= (select %s i) 255)) :pattern ((select %s i))))", newArr, newArr, newArr))
 		a.frameOblige(instr, reach, fmt.Sprintf("(sref %s)", p), "PacketConn.ReadFrom buffer")
@@ -126,7 +126,7 @@ func (a *Act) ghostCall(res ssa.Value, instr ssa.Instruction, fn *ssa.Function, 
 		rt := sig.Results().At(0).Type()
 		if isSpecSeqType(rt) {
 			// materialise as a fresh []string whose view is the spec value
-			ref := a.alloc(st, a.nm("specres"))
+			ref := a.alloc(st, a.nm("specres"), arrAlloc(tString))
 			n := g.def(a.nm("specres_v"), "SSeq", app)
 			g.assumeIf(reach, fmt.Sprintf("(= (qofarr (select %s %s) 0 (qlen %s)) %s)", st.H["Q"], ref, n, n))
 			if res != nil {
